@@ -682,6 +682,19 @@ class Env:
                 self.k += 1
                 return self.k
 
+            # generator-like extras: a `for` statement never calls them, whoever does is logged
+            def close(self):
+                ev(("close", self.i))
+                self.k = self.n
+
+            def send(self, v):
+                ev(("send", self.i))
+                return self.__next__()
+
+            def throw(self, *a):
+                ev(("throw", self.i))
+                raise StopIteration
+
         class Box:
             """logging container / attribute holder: counts loads and stores"""
 
